@@ -74,7 +74,7 @@ def check(run):
     run.traces = tot["assembly"]["cases"] + tot["body"]["cases"] + tot["core"]["cases"] + tot["jar_root"]["histories"] + tot["jar_v6"]["histories"] + tot["jar_paths"]["histories"]
     run.nontrivial = (tot["assembly"]["cases_with_both_levels_additive"] + tot["body"]["with_files"] + tot["core"]["behaviours_with_cancel_after_worker_commit"]
                       + tot["jar_root"]["ops_with_visible_cookies"] + tot["jar_v6"]["ops_with_visible_cookies"] + tot["jar_paths"]["ops_with_visible_cookies"])
-    run.rule = ("(a) ClientAssemble.tla: every configuration of each pair of request components (header, query, cookie, user agent, referer, path parameter) "
+    run.rule = ("(a) ClientAssemble.tla: every configuration of each pair of request components (header, query, cookie, user agent, referer, path parameter; the timeout on its own, observed on a slow endpoint together with the next request of a client that configured none) "
                 "at client and request level over value classes {plain, needs-escaping, empty} is sent twice over an in-memory connection and compared with what "
                 "the spec says arrives; ClientBody.tla: every setter-call sequence of <= 2 form fields (repeated keys, values needing escaping, empty) and <= 2 files "
                 "(plain / awkward names; text, binary, boundary-like, empty contents), raw bodies and a JSON value, in every call order, sent twice: form values per key in "
